@@ -564,6 +564,9 @@ def run(ctx):
     duplicates_rule(ctx)
     lagrange_rule(ctx)
     prescription_order_rule(ctx)
+    from . import c03
+
+    c03.dofs_nodes_rule(ctx)
     orphan_rule(ctx)
     dispatch_rule(ctx)
     incremental_rule(ctx)
